@@ -93,6 +93,12 @@ func stream(kind byte, i, payload int) []byte {
 	if kind == 'W' {
 		s = append([]byte(ppHeader), s...)
 	}
+	if kind == 'B' {
+		for j := 0; j < 9300; j++ {
+			s = append(s, byte('a'+(i*7+j)%26))
+		}
+		return s
+	}
 	if kind == 'U' {
 		return s // two bytes only: the 3-byte matcher stays undecided until the matching timeout
 	}
@@ -139,6 +145,13 @@ func execute(x *explore.Exec, sc *Scn) *result {
 		defer cancel()
 		lw := &layer4.ListenerWrapper{MatchingTimeout: caddy.Duration(2 * time.Second)}
 		rj := routesJSON
+		if strings.Contains(sc.Conns, "B") {
+			// kind B: a stream of 9300 bytes in front of a route whose matcher needs 8000 of them
+			// before it says no; the client's first write is 1000 bytes, so the matching buffer
+			// crosses the 8 KiB limit off a chunk boundary before the connection falls through
+			rj = strings.Replace(rj, "[\n", `[
+ {"match":[{"h_need":{"id":"mB","k":8000,"pat":"#"}}], "handle":[{"handler":"h_rec","id":"never","buf":7}]},`+"\n", 1)
+		}
 		if strings.Contains(sc.Conns, "R") {
 			// kind R: TLS termination followed by another non-terminal handler that replaces the
 			// connection's transport (throttle) before the connection falls through
@@ -169,6 +182,9 @@ func execute(x *explore.Exec, sc *Scn) *result {
 					return
 				}
 				buf := make([]byte, 5)
+				if strings.Contains(sc.Conns, "B") {
+					buf = make([]byte, 4096)
+				}
 				var data []byte
 				var rerr error
 				for rerr == nil {
@@ -239,6 +255,10 @@ func execute(x *explore.Exec, sc *Scn) *result {
 				inners[i%len(inners)].Inject(sv)
 				res.injected++
 				continue
+			}
+			if sc.Conns[i] == 'B' {
+				cl.Write(s[:1000])
+				s = s[1000:]
 			}
 			cl.Write(s)
 			if sc.Conns[i] == 'L' {
@@ -356,7 +376,7 @@ func check(x *explore.Exec, sc *Scn, r *result) {
 			x.Fail("deadline-armed-on-hand-over", "connection %d was handed over with the matching read deadline still armed (%v): a consumer that reads after the matching timeout gets an i/o timeout; %s", i, r.servers[i].ReadDeadline(), desc())
 		}
 		switch kind {
-		case 'F', 'G', 'W', 'S', 'R':
+		case 'F', 'G', 'W', 'S', 'R', 'B':
 			if kind == 'S' || kind == 'R' {
 				for _, a := range r.accepted {
 					if string(a.data) == want && (!a.tls || a.sni != "verif.test") {
@@ -446,7 +466,7 @@ func scenarios(tier string, yield0 func(any) bool) {
 			}
 		}
 	}
-	mixes = append(mixes, "FFF", "FTF", "FFT", "WFW", "WWF", "S", "SF", "FS", "SS", "ST", "SU", "R", "RF", "L", "LF", "FL", "H", "HF", "FH")
+	mixes = append(mixes, "FFF", "FTF", "FFT", "WFW", "WWF", "S", "SF", "FS", "SS", "ST", "SU", "R", "RF", "L", "LF", "FL", "H", "HF", "FH", "B")
 	if os.Getenv("VERIF_C13_SUBSET") == "stream" {
 		// as the listener-wrapper part of C01: what the wrapped listener's consumer reads is the
 		// client's stream from the first unconsumed byte (plain, after a consuming route, after
@@ -457,7 +477,7 @@ func scenarios(tier string, yield0 func(any) bool) {
 		// as the listener part of C02: a connection no route wants is handed to the wrapped
 		// listener it arrived on, once, intact (alone, next to matched ones, one wrapper around
 		// two listeners)
-		mixes = []string{"F", "FF", "FT", "TF", "G"}
+		mixes = []string{"F", "FF", "FT", "TF", "G", "S", "B"}
 	}
 	// a transient accept error between arrivals
 	if os.Getenv("VERIF_C13_SUBSET") == "" {
@@ -490,7 +510,7 @@ func scenarios(tier string, yield0 func(any) bool) {
 					closes = append(closes, k)
 				}
 				for _, cl := range closes {
-					if strings.ContainsAny(m, "SR") && (procs == 2 || cl > 1) {
+					if strings.ContainsAny(m, "SRB") && (procs == 2 || cl > 1) {
 						continue
 					}
 					for _, pl := range []int{3, 9} {
@@ -554,7 +574,7 @@ func main() {
 			if sc.Two && len(sc.Conns) > 1 && tier != "thorough" {
 				ex.Total = 2 // two consumers: more threads, same depth as the other mixes
 			}
-			if strings.ContainsAny(sc.Conns, "SR") {
+			if strings.ContainsAny(sc.Conns, "SRB") {
 				// a TLS handshake is ~100 scheduling points per execution
 				ex.Total = 1
 				if tier == "thorough" {
